@@ -344,6 +344,7 @@ def call_np(ip, name, args, kwargs, lineno):
             c.assume(Implies(r, And(in_range(w, n), B(f(w)))))
             c.assume(Forall(lambda k: Implies(And(in_range(k, n), B(f(k))), r), triggers=[], name="any.intro"))
             c.ghost.setdefault("any_witness", []).append((r, w))
+            c.index_terms.append(w)
             return r
         if isinstance(a, SArr2):
             f = a.snapshot2()
